@@ -69,7 +69,10 @@ def run_job(job, w):
     ty = None
     if job.get("ty_which"):
         # sleeps at line boundaries inside the engine life-cycle functions / controller callbacks (see rt.harness)
-        ty = harness.install_targeted_yield(p=0.15, max_sleep=0.004, seed=job.get("ty_seed", 0), which=job["ty_which"])
+        # engine-slice children: occasional 10-40 ms pauses inside Engine.restart() itself, so that the kills a second
+        # thread delivers "while restart() is executing" land at many different lines of it
+        ty = harness.install_targeted_yield(p=0.15, max_sleep=0.004, seed=job.get("ty_seed", 0), which=job["ty_which"],
+                                            extra_long=())
     for sc in job["scenarios"]:
         if "steps" in sc:
             run_engine_scenario(sc, w, job)
@@ -203,10 +206,11 @@ def gen_engine_scenario(rng):
     steps = []
     for i in range(n):
         steps.append({"op": "wait_dead"})
-        if rng.random() < 0.35:
-            # a second thread kills the engine WHILE restart() is executing (0-6 ms after it was entered); the engine
+        if rng.random() < 0.5:
+            # a second thread kills the engine WHILE restart() is executing (0-30 ms after it was entered); the engine
             # must then end Killed without running a task to its own exit
-            steps.append({"op": "restart", "concurrent_kill": rng.choice([0.0, 0.0005, 0.001, 0.002, 0.004, 0.006])})
+            steps.append({"op": "restart", "concurrent_kill": rng.choice(["alive", "alive", "alive+1", "alive+3", 0.0, 0.002,
+                                                                        0.005, 0.01])})
             steps.append({"op": "wait_dead"})
             steps.append({"op": "restart"})
             continue
@@ -317,7 +321,12 @@ def main():
         for j in jobs[::4]:
             j["K"] = 10.0
             j["scenarios"] = [gen_engine_scenario(rng) for _ in range(6)] + [gen_repeating_scenario(rng) for _ in range(4)]
+            j["engine_slice"] = True
         for i, j in enumerate(jobs):
+            if j.get("engine_slice"):
+                j["ty_which"] = "lifecycle"
+                j["ty_seed"] = rnd * 1000 + i
+                continue
             # every second child: yield injection inside the engine life cycle / controller callbacks
             if (i + rnd) % 2 == 1:
                 j["ty_which"] = ("lifecycle", "controller", "all")[((i + rnd) // 2) % 3]
